@@ -60,10 +60,18 @@ type Ctx struct {
 // Thorough reports whether the tier is "thorough".
 func (c *Ctx) Thorough() bool { return c.Tier == "thorough" }
 
-// Pick returns q for the quick tier and t for thorough.
+// Pick returns q for the quick tier and t for thorough. Case counts (q >= 300) of the
+// quick tier are multiplied by four: the quick streams were sized when each check took
+// about a second, and several seeded changes were caught at some seeds only; the case at
+// index i is the same in both tiers, so the quick set stays a prefix of the thorough one.
 func (c *Ctx) Pick(q, t int) int {
 	if c.Thorough() {
 		return t
+	}
+	if q >= 300 && t > q {
+		if q *= 4; q > t {
+			q = t
+		}
 	}
 	return q
 }
